@@ -460,7 +460,7 @@ def gen_restart(cfg, wl, fl, tier):
                 ops.append({"k": "sample", "dom": wl.choice(["sync", "other"])})
         tbs.append(ops)
     bg = {"period": wl.choice([3, 5, maxp + 1, 2 * maxp]), "critical_ticks": wl.choice([0, 1, 2]),
-          "enabled": fl.random() < 0.7}
+          "enabled": fl.random() < 0.7, "cleanup": fl.random() < 0.4}
     proc = {"enabled": fl.random() < 0.7, "match": wl.randrange(4)}
     resets = [fl.randint(0, 40)]
     if fl.random() < 0.4:
@@ -592,18 +592,25 @@ def simulate_restart(case, stats, mode=None):
 
             async def background(ctx):
                 n = 0
-                while True:
-                    await ctx.delay(Period(fs=bg["period"]))
-                    n += 1
-                    if bg["critical_ticks"]:
-                        with ctx.critical():
-                            in_critical[0] += 1
-                            for _ in range(bg["critical_ticks"]):
-                                await ctx.tick("sync")
+                try:
+                    while True:
+                        await ctx.delay(Period(fs=bg["period"]))
+                        n += 1
+                        if bg["critical_ticks"]:
+                            with ctx.critical():
+                                in_critical[0] += 1
+                                for _ in range(bg["critical_ticks"]):
+                                    await ctx.tick("sync")
+                                ctx.set(dut.raddr, n & 7)
+                                in_critical[0] -= 1
+                        else:
                             ctx.set(dut.raddr, n & 7)
-                            in_critical[0] -= 1
-                    else:
-                        ctx.set(dut.raddr, n & 7)
+                finally:
+                    # clean-up code of a testbench that is abandoned while suspended (reset() replaces its coroutine): whatever
+                    # it writes belongs to the run that is being abandoned, not to the next one
+                    if bg.get("cleanup"):
+                        ctx.set(dut.en, 0)
+                        P["cleanup_ran"] = P.get("cleanup_ran", 0) + 1
             sim.add_testbench(background, background=True)
         if case["proc"]["enabled"]:
             pr = case["proc"]
